@@ -222,17 +222,18 @@ def printed_tuples(r, tag):
 CACHE = os.path.join(ROOT, 'cache')
 
 
-def cached_run(module, cfg, tags=('EDGE',), timeout=3600, workers=1, depends=()):
+def cached_run(module, cfg, tags=('EDGE',), timeout=3600, workers=1, depends=(), module_dir=None, extra_key=''):
     """TLC run whose result depends only on the specification (edge streams): cached under /verif/cache,
     keyed by the text of every module in /verif/tla it can depend on plus the cfg."""
     import gzip
     import hashlib
     h = hashlib.sha256()
     for fn in sorted(os.listdir(TLA)):
-        if fn.endswith('.tla') and (not depends or fn[:-4] in depends or fn[:-4] == module):
+        if fn.endswith('.tla') and (not depends or fn[:-4] in depends):
             h.update(open(os.path.join(TLA, fn), 'rb').read())
     h.update(cfg.encode())
     h.update(module.encode())
+    h.update(extra_key.encode())
     key = h.hexdigest()[:24]
     os.makedirs(CACHE, exist_ok=True)
     path = os.path.join(CACHE, '%s-%s.json.gz' % (module, key))
@@ -246,7 +247,7 @@ def cached_run(module, cfg, tags=('EDGE',), timeout=3600, workers=1, depends=())
             return r
         except Exception:  # noqa
             os.remove(path)
-    r = run(module, cfg, workers=workers, timeout=timeout)
+    r = run(module, cfg, workers=workers, timeout=timeout, module_dir=module_dir)
     if r.violations:
         return r
     keep = [l for l in r.prints if any(l.startswith('<<"%s"' % t) for t in tags)]
